@@ -215,7 +215,7 @@ def kf_cases(fn, tier, rng):
 
 
 # ---------- the copying half of the merge (setGroupList, cpy_file_entry, the three steps of econf_mergeFiles)
-MERGE_FNS = ("setGroupList", "cpy_file_entry", "merge3")
+MERGE_FNS = ("setGroupList", "cpy_file_entry", "merge3", "mergeFiles")
 
 
 def ents3_token(ents):
@@ -270,6 +270,10 @@ def merge_expected(fn, t):
         return "%d %s %s - - %d 0 g%s" % (out.index(g), hx(k), opt_tok(v), 10 + i, ",".join(hx(x) for x in out))
     uf, ef = t
     res, (l1, l2, l3), groups = merge_spec(uf, ef)
+    if fn == "mergeFiles":
+        # econf_mergeFiles: success, length = alloc_length = number of entries, the base's delimiter and comment characters, no path
+        return "E0 %d %d 61 35 - e%s g%s" % (l3, l3, ",".join("%d:%s:%s:%d:0" % (groups.index(g), hx(k), opt_tok(v), ln) for g, k, v, ln in res),
+                                           ",".join(hx(x) for x in groups))
     return "%d %d %d e%s g%s" % (l1, l2, l3, ",".join("%d:%s:%s:%d:0" % (groups.index(g), hx(k), opt_tok(v), ln) for g, k, v, ln in res),
                                   ",".join(hx(x) for x in groups))
 
